@@ -156,7 +156,7 @@ template<class C> struct Drv
     C& c = *cs[g_cur];
     C& o = *cs[1 - g_cur];
     const char* name = t.v[0];
-    if(!strcmp(name, "ins") || !strcmp(name, "hint")) {
+    if(!strcmp(name, "ins") || !strcmp(name, "hint") || !strcmp(name, "hintc")) {
       usize before = c.size();
       It it;
       if(name[0] == 'i') it = c.insert(CountKey(atoi(t.v[1])), atoi(t.v[2]));
